@@ -107,7 +107,10 @@ pub fn drain_access(_ev: &mut Map<String, Value>) {
     #[cfg(lucid_suggest_verif)]
     {
         let log = core::verif::drain();
-        _ev.insert("acc".into(), access_json(&log));
+        if !_ev.contains_key("acc") {
+            // (an operation that has already recorded the accesses of the call under test keeps that record)
+            _ev.insert("acc".into(), access_json(&log));
+        }
     }
 }
 
@@ -378,6 +381,24 @@ pub fn op_component(ctx: &mut Ctx, op: &Value, ev: &mut Map<String, Value>) {
                     }
                     Ok(Some((r, q))) => {
                         ev.insert("m".into(), json!([{"r": wm_json(&r), "q": wm_json(&q)}]));
+                        drain_access(ev);           // the accesses of word_match itself, before any other instance is used
+                        // the distance of the two matched prefixes computed on their own, on an instance that has seen
+                        // nothing else (C16: what word_match reports for a prefix pair is that distance)
+                        let rw = rt.view(ri);
+                        let qw = qt.view(qi);
+                        let (rl, ql) = (r.subslice.1 - r.subslice.0, q.subslice.1 - q.subslice.0);
+                        if rl <= rw.len() && ql <= qw.len() {
+                            let sub = |w: &core::tokenization::WordView, n: usize| -> TextOwn {
+                                let chars: Vec<char> = w.chars()[..n].to_vec();
+                                let classes = w.classes()[..n].to_vec();
+                                TextOwn { words: vec![WordShape::new(n)], source: chars.clone(), chars, classes }
+                            };
+                            let (t1, t2) = (sub(&qw, ql), sub(&rw, rl));
+                            if let Ok(d) = guarded(|| core::verif::DamerauLevenshtein::new().distance(&t1.view(0), &t2.view(0))) {
+                                let x2 = d * 2.0;
+                                ev.insert("fresh_x2".into(), json!(if x2 == x2.round() && x2 >= 0.0 && x2 < 1.0e9 { x2 as i64 } else { -1 }));
+                            }
+                        }
                     }
                     Err(msg) => {
                         ev.insert("panic".into(), json!(msg));
